@@ -466,15 +466,25 @@ theorem recoverNode_spec {n : Node} (h : DurInv n) (peers : Config) :
   · intro hf; cases hf
   · simp [truth, replay_nil]
 
-/-- `Open` with a peers file: `RecoverNode`, then the normal start-up (never the fast path) -/
-theorem open_recover_truth {n : Node} (h : DurInv n) (peers : Config) (hp : n.peersFile = some peers) :
+/-- a peers file that fails `checkRaftConfiguration`: `Open` fails, nothing but the fingerprint
+(already removed) changes, the node stays down and keeps standing for the same database -/
+theorem open_invalid_peers {n : Node} (h : DurInv n) (peers : Config) (hp : n.peersFile = some peers)
+    (hv : checkConfig peers = false) :
+    openNode n = { n with fp := false } ∧ DurInv (openNode n) ∧ truth (openNode n) = truth n := by
+  have e : openNode n = { n with fp := false } := by unfold openNode; rw [hp]; simp [hv]
+  rw [e]
+  exact ⟨rfl, ⟨h.snap_le, h.nosnap, fun hf => by cases hf⟩, rfl⟩
+
+/-- `Open` with a valid peers file: `RecoverNode`, then the normal start-up (never the fast path) -/
+theorem open_recover_truth {n : Node} (h : DurInv n) (peers : Config) (hp : n.peersFile = some peers)
+    (hv : checkConfig peers = true) :
     (openNode n).live = truth n ∧ (openNode n).snap = some (n.hist.length, truth n) ∧
     (openNode n).logStart = n.hist.length ∧ (openNode n).config = peers ∧ (openNode n).peersFile = none ∧
     DurInv (openNode n) ∧ Quiet (openNode n) ∧ truth (openNode n) = truth n ∧ (openNode n).hist = n.hist := by
   have hprep := durInv_openPrep h
   obtain ⟨rd, rt, rs, rl, rc, rp, rh⟩ := recoverNode_spec hprep peers
   obtain ⟨l, dd, fok⟩ := openRebuild_spec rd
-  have e : openNode n = openRebuild (recoverNode (openPrep n) peers) := by unfold openNode; rw [hp]
+  have e : openNode n = openRebuild (recoverNode (openPrep n) peers) := by unfold openNode; rw [hp]; simp [hv]
   rw [e]
   have hflds : ∀ m : Node, (openRebuild m).snap = m.snap ∧ (openRebuild m).logStart = m.logStart ∧
       (openRebuild m).config = m.config ∧ (openRebuild m).peersFile = m.peersFile ∧ (openRebuild m).hist = m.hist ∧
